@@ -21,7 +21,7 @@ def gen(c):
 def run(c):
     c.rule = ("body cases (58%): 1-3 real aggregatorBuckets, 1-10 TL rows over 1-4 keys (int/string tags, explicit timestamps around the "
               "believe window, trailing zero tags), 0-7 string tops, values in compact/full form with counter_eq_1, zero and negative "
-              "counters, explicit/empty hosts, sketches, centroids, implicit centroids, StringTopCountInsert in {1,2,3,20}; merged by the "
+              "counters, explicit/empty hosts (a quarter of the values with DIFFERING min/max/max-count hosts: unmapped string hosts, ids, present-but-empty), sketches, centroids, implicit centroids, StringTopCountInsert in {1,2,3,20}; merged by the "
               "real GetOrCreateMultiItem/MergeWithTLMultiItem, inserted by the real rowDataMarshalAppendPositions; every row of the body is "
               "re-encoded by the model and compared byte for byte, the number of rows and the absence of unrequested rows are compared too. "
               "codec cases: appendArgMinMaxTag -> ColArgMin/MaxStringFloat32 (single value, and two result blocks through one column "
@@ -79,7 +79,8 @@ META = {
              "(int and string hosts, empty state), also for a column read into reused slots, and for percentile/uniq result columns decoded block by block "
              "through one column object (rows kept from earlier blocks are never changed by later blocks); after merging any list of TL rows into a bucket every "
              "(time, metric, tags, top) key is written exactly once (key columns are injective) and its count/sum/sum-of-squares/min/max are the fold of the "
-             "contributions to that key; a sketch fed fewer distinct hashes than the exact-mode limit through MergeRead/MarshallAppend/ReadFrom keeps skipDegree 0 "
+             "contributions to that key; the host written next to min (max) is the host a contribution holding that min (max) names for it, restored by ONE function "
+             "for the three parallel max/min/max-count blocks of MergeWithTL2 (absent, present-but-empty, explicit), the max-count host is named by a counted contribution; a sketch fed fewer distinct hashes than the exact-mode limit through MergeRead/MarshallAppend/ReadFrom keeps skipDegree 0 "
              "and reports exactly the number of distinct hashes. The model is tied to the code by re-encoding every row of real insert bodies byte for byte."),
     "note": ("Trusted: Lean kernel; model<->code correspondence on generated cases (quick 2000, thorough 56000); float64 only inside the exact domain; "
              "hrissan/tdigest, rng draws and the sketch's table order are inputs of the model. Partial: one_row_per_key is per aggregator bucket (a body of several "
